@@ -124,6 +124,8 @@ def regen_api():
     api.generate()
     from translate import hexsrc
     hexsrc.generate()           # CmGen/HexSrc.lean: Color.to_hex, which feeds the console preview (CmProps/C17hex.lean)
+    from translate import defaults
+    defaults.generate()         # CmGen/Defaults.lean: default values of the public entry points' parameters (CmProps/C17defaults.lean)
     effectsig.generate()        # CmGen/EffectSig.lean: every output / file-system call of the core modules (CmProps/C17sig.lean)
 
 
